@@ -40,7 +40,7 @@ for pid, text, tech in [
      "fuzzing / property-based testing: mutation + token-soup generators with an outcome-classification oracle (Hypothesis; atheris in the thorough tier)"),
     ("C19", "Complete enumeration of the finite vocabulary product (block type x parent context x schema property x position x value alternative x representative value) as minimal document models, plus all parent/child edges, all declared defaults and create(type, version) over all schema files x 7 versions; oracle: reference dictionary, printer log records, round trip, validation messages.",
      "exhaustive enumeration of a finite configuration product with a reference-model oracle"),
-    ("C07", "Generated-input search: Hypothesis-drawn schema-valid documents of every root type with 0-2 injected faults at drawn depths and list indexes (each fault confirmed invalid by the Draft-4 evaluator), plus arbitrary generated documents; oracles: by-construction expectation of the named messages, differential against jsonschema Draft 4 over the harness's own inlined schema copy, never-raises, metamorphic relations (value case, hidden keys, key case, list of roots).",
+    ("C07", "Exhaustive single-fault sweep over every keyword slot x fault kind x context, plus generated-input search: Hypothesis-drawn schema-valid documents of every root type with 0-2 injected faults at drawn depths and list indexes (each fault confirmed invalid by the Draft-4 evaluator), plus arbitrary generated documents; oracles: by-construction expectation of the named messages, differential against jsonschema Draft 4 over the harness's own inlined schema copy, never-raises, metamorphic relations (value case, hidden keys, key case, list of roots).",
      "property-based testing: fault injection with by-construction and differential (reference evaluator) oracles, metamorphic relations (Hypothesis)"),
     ("C08", "Generated-input search: the independent renderer knows the line and column of every token it writes under a Hypothesis-drawn surface; recorded positions of objects, keywords and values are compared with them, and messages for injected faults must carry the offending keyword's / enclosing opener's position.",
      "property-based testing: renderer-known ground truth for positions + fault injection (Hypothesis)"),
